@@ -252,6 +252,14 @@ class BF:
             return ("c", a[1] + b[1])
         if a[0] == "c":
             a, b = b, a
+        if b[0] == "c" and a[0] == "sub" and a[2][0] == "c":
+            # (x - k) + c  ==  x + (c - k)   (also modulo 2^64)
+            d = b[1] - a[2][1]
+            if d == 0:
+                return a[1]
+            if d < 0:
+                return ("sub", a[1], ("c", -d))
+            return self.mk_add(a[1], ("c", d))
         if b[0] == "c":
             if a[0] == "add" and a[2][0] == "c":
                 return ("add", a[1], ("c", a[2][1] + b[1]))
@@ -937,7 +945,8 @@ class BF:
         """The operand's value comes from decoded input (a varint / fixed-width decode or a conversion of one)."""
         if op.get("k") not in ("copy", "move"):
             return False
-        return any(s_["k"] == "call" and self.TAINT.search(s_["callee"]) for s_ in P.origins(self.fn, op))
+        srcs, _locs = P.value_slice(self.fn, op)      # through arithmetic: `n * 4` of a decoded n is decoded too
+        return any(s_["k"] == "call" and self.TAINT.search(s_["callee"]) for s_ in srcs)
 
     def overflow_sites(self):
         """Overflow asserts (`a + b`, `a - b`, `a * b` on usize/u64) where an operand is decoded input."""
@@ -969,7 +978,7 @@ class BF:
             return "constant"
         if base[0] == "len":
             return "a buffer length"
-        ty = self._op_ty(op)
+        ty = self.narrow_source(op)
         if ty in ("u8", "u16", "u32"):
             return "a %s" % ty
         for (uop, u) in self.upper_facts(base) + self.value_facts(base, site):
@@ -984,6 +993,19 @@ class BF:
         if not self.tainted(op):
             return "not decoded input"
         return None
+
+    def narrow_source(self, op):
+        """Type of the operand, or of the narrower integer it was widened from (`x as usize` of a u32)."""
+        ty = self._op_ty(op)
+        for _ in range(6):
+            if ty in ("u8", "u16", "u32") or op.get("k") not in ("copy", "move") or op["pl"]["p"]:
+                break
+            ds = [(pt, kind, p) for (pt, kind, p) in self.defs.of(op["pl"]["l"]) if kind in ("assign", "call")]
+            if len(ds) != 1 or ds[0][1] != "assign" or ds[0][2]["rv"]["r"] not in ("use", "cast") or ds[0][2]["lhs"]["p"]:
+                break
+            op = ds[0][2]["rv"]["a"]
+            ty = self._op_ty(op)
+        return ty
 
     def decide_overflow(self, s):
         if s["op"] in ("Add", "Mul"):
